@@ -998,7 +998,16 @@ pub fn family_reqbreak() -> Vec<PProblem> {
                         s.required_breaks = vec![(window.0, window.1, duration)];
                         s.required_offset = offset;
                         let jobs: Vec<PJob> = (0..n).map(|i| job(&format!("d{i}"), vec![task(Delivery, vec![place(1 + i % 4, 2., &[], None)], &[1])])).collect();
-                        out.push(base(format!("reqbreak/n{n}/w{wi}/d{duration}/f{fleet}/{}", if offset { "offset" } else { "exact" }), jobs, vec![vehicle_type("v", fleet, &[4], vec![s])]).fit_matrices());
+                        out.push(base(format!("reqbreak/n{n}/w{wi}/d{duration}/f{fleet}/{}", if offset { "offset" } else { "exact" }), jobs.clone(), vec![vehicle_type("v", fleet, &[4], vec![s.clone()])]).fit_matrices());
+                        // exact times with a departure which may move: a first job with a late window lets the vehicle leave
+                        // after an early break is over (the break then is no part of the tour)
+                        if !offset && fleet == 1 {
+                            let mut s = s;
+                            s.start_latest = None;
+                            let mut jobs = jobs;
+                            jobs[0].tasks[0].places[0].times = vec![(120., 300.)];
+                            out.push(base(format!("reqbreak/n{n}/w{wi}/d{duration}/late-first-job"), jobs, vec![vehicle_type("v", fleet, &[4], vec![s])]).fit_matrices());
+                        }
                     }
                 }
             }
